@@ -1,7 +1,342 @@
-//! C02 — not built yet (stub keeps the registry stable while modules are written in parallel).
+//! C02 — the core language follows call-by-value semantics with per-call-site state.
+//! Oracle: an independent reference interpreter (gens/refint.rs) vs. the bytecode VM.
 
-use crate::engine::case::Prop;
+use crate::engine::case::*;
+use crate::engine::rng::hash64;
+use crate::engine::tape::Gen;
+use crate::gens::prog::{self, Bop, FnDef, Layout, PCfg, Param, Pat, Prog, Top, Ty, E, PG, S};
+use crate::gens::refint::{Interp, Unsupported};
+use crate::props::c01::{self, gen_inputs};
+use crate::runners::exec::{self, canon, Exec, Inputs, RunOpts};
+use serde_json::{json, Value};
+
+pub struct C02;
 
 pub fn prop() -> Option<&'static dyn Prop> {
-    None
+    Some(&C02)
+}
+
+/// CoreGen-A: the fragment whose meaning the property statement fixes.
+pub fn cfg_a(cx: &Cx) -> (PCfg, Vec<&'static str>) {
+    let (mut c, off) = c01::pcfg(cx);
+    // outside the statement's domain (not findings): delay times outside [1, N-1], NaN as a condition
+    c.wild_delay_time = false;
+    c.raw_conditions = false;
+    // these only concern the WASM backend: irrelevant for the VM-vs-reference comparison
+    c.modulo = true;
+    c.multi_maker_instances = true;
+    c.tuple_if = true;
+    c.tuple_globals = true;
+    c.proj_in_cond = true;
+    c.capture_destructured = true;
+    c.self_in_tuple = true;
+    c.tuple_inputs = false;
+    (c, off)
+}
+
+fn reference(p: &Prog, inputs: &Inputs, n: u64) -> Result<Vec<Vec<u64>>, Unsupported> {
+    let mut it = Interp::new(p)?;
+    let mut out = vec![];
+    for t in 0..n {
+        let inp: Vec<f64> = (0..p.n_in).map(|c| inputs.at(t, c)).collect();
+        let w = it.dsp(t, &inp)?;
+        out.push(w.iter().map(|x| x.to_bits()).collect());
+    }
+    Ok(out)
+}
+
+struct Out {
+    fail: Option<(String, String)>,
+    discard: Option<String>,
+    varying: bool,
+}
+
+fn check(p: &Prog, src: &str, inputs: &Inputs, n: u64) -> Out {
+    let mut o = Out { fail: None, discard: None, varying: false };
+    let want = match reference(p, inputs, n) {
+        Ok(w) => w,
+        Err(u) => {
+            o.discard = Some(format!("reference:{}", u.0.split(' ').take(3).collect::<Vec<_>>().join(" ")));
+            return o;
+        }
+    };
+    let vm = exec::run_vm(src, inputs, &RunOpts { n, sched: false, want_state: false, want_counts: false, want_trace: false });
+    match vm {
+        Exec::Rejected(d) => {
+            // not well-typed for the repository's checker (e.g. projection of a variable whose tuple
+            // type is not yet resolved): outside the property's domain
+            o.discard = Some(format!("rejected:{}", crate::engine::panics::normalise(&d.first().map(|x| x.message.clone()).unwrap_or_default())));
+        }
+        Exec::NoIo => o.discard = Some("no-io".into()),
+        Exec::Panic(stage, pn) => {
+            // crashes are C03's subject; they are not judged by the reference
+            o.discard = Some(format!("vm-panic:{stage}:{}", crate::engine::panics::normalise(&pn.msg)));
+        }
+        Exec::Error(s, e) => o.discard = Some(format!("vm-error:{s}:{e}")),
+        Exec::Ran(a) => {
+            for (t, (x, y)) in a.samples.iter().zip(want.iter()).enumerate() {
+                if x.len() != y.len() {
+                    o.fail = Some(("c02:output-width".into(), format!("sample {t}: VM yields {} words, the reference {}", x.len(), y.len())));
+                    return o;
+                }
+                for ch in 0..x.len() {
+                    if canon(x[ch]) != canon(y[ch]) {
+                        o.fail = Some(("c02:output-differs".into(), format!("sample {t} channel {ch}: VM {:?} ({:#x}), reference {:?} ({:#x})", f64::from_bits(x[ch]), x[ch], f64::from_bits(y[ch]), y[ch])));
+                        return o;
+                    }
+                }
+                if t > 0 && want[t] != want[0] {
+                    o.varying = true;
+                }
+            }
+        }
+    }
+    o
+}
+
+// ------------------------------------------------------------------ calibration set
+// Fixtures of the repository transcribed by hand into P, with the expected vectors from
+// their `// @test` headers: calibrates the reference *and* the renderer against the authors'
+// stated expectations before any random case is believed.
+
+fn v(n: &str) -> E {
+    E::Var(n.into())
+}
+fn l(t: &str) -> E {
+    E::Lit(t.into())
+}
+fn bin(op: Bop, a: E, b: E) -> E {
+    E::Bin(op, Box::new(a), Box::new(b))
+}
+fn call(id: u32, f: &str, args: Vec<E>) -> E {
+    E::Call(id, Box::new(v(f)), args)
+}
+fn fun(name: &str, params: Vec<(&str, Ty)>, ret: Ty, body: E) -> Top {
+    Top::Fn(FnDef { name: name.into(), params: params.into_iter().map(|(n, t)| Param { name: n.into(), annotate: !matches!(t, Ty::Num), ty: t }).collect(), annotate_ret: !matches!(ret, Ty::Num), ret, body })
+}
+fn tup2() -> Ty {
+    Ty::Tup(vec![Ty::Num, Ty::Num])
+}
+
+pub fn calibration() -> Vec<(&'static str, Prog, u64, Vec<f64>)> {
+    vec![
+        // counter.mmm: fn counter(){ self+1.0 }  dsp = counter()   (self is the previous return)
+        ("counter", Prog { tops: vec![fun("counter", vec![], Ty::Num, bin(Bop::Add, E::SelfV, l("1.0"))), fun("dsp", vec![], Ty::Num, call(1, "counter", vec![]))], n_in: 0, n_out: 1 }, 5, vec![1.0, 2.0, 3.0, 4.0, 5.0]),
+        // state_tuple.mmm
+        (
+            "state_tuple",
+            Prog {
+                tops: vec![
+                    fun("bifb", vec![], tup2(), E::Block(vec![S::Let(Pat::Tup(vec![Pat::Var("a".into()), Pat::Var("b".into())]), E::SelfV)], Box::new(E::Tup(vec![bin(Bop::Add, v("a"), l("1.0")), bin(Bop::Add, v("b"), l("2.0"))])))),
+                    fun("dsp", vec![], tup2(), call(1, "bifb", vec![])),
+                ],
+                n_in: 0,
+                n_out: 2,
+            },
+            3,
+            vec![1.0, 2.0, 2.0, 4.0, 3.0, 6.0],
+        ),
+        // delay.mmm: delay(10.0, counter(), 5.0)
+        (
+            "delay",
+            Prog {
+                tops: vec![fun("counter", vec![], Ty::Num, bin(Bop::Add, E::SelfV, l("1.0"))), fun("dsp", vec![], Ty::Num, E::Block(vec![S::Let(Pat::Var("c".into()), call(1, "counter", vec![]))], Box::new(E::Delay(2, 10, Box::new(v("c")), Box::new(l("5.0"))))))],
+                n_in: 0,
+                n_out: 1,
+            },
+            10,
+            vec![0.0, 0.0, 0.0, 0.0, 0.0, 1.0, 2.0, 3.0, 4.0, 5.0],
+        ),
+        // fb_mem.mmm: mem_by_hand(counter())
+        (
+            "fb_mem",
+            Prog {
+                tops: vec![
+                    fun("counter", vec![], Ty::Num, bin(Bop::Add, l("1.0"), E::SelfV)),
+                    fun("mem_by_hand", vec![("x", Ty::Num)], tup2(), E::Block(vec![S::Let(Pat::Tup(vec![Pat::Var("y".into()), Pat::Var("ys".into())]), E::SelfV)], Box::new(E::Tup(vec![v("x"), v("y")])))),
+                    fun("dsp", vec![], tup2(), call(1, "mem_by_hand", vec![call(2, "counter", vec![])])),
+                ],
+                n_in: 0,
+                n_out: 2,
+            },
+            5,
+            vec![1.0, 0.0, 2.0, 1.0, 3.0, 2.0, 4.0, 3.0, 5.0, 4.0],
+        ),
+        // if_state.mmm: two call sites of one stateful function own separate state
+        (
+            "if_state",
+            Prog {
+                tops: vec![
+                    fun(
+                        "countup",
+                        vec![("active", Ty::Num)],
+                        Ty::Num,
+                        E::Block(vec![S::Let(Pat::Var("r".into()), bin(Bop::Add, E::SelfV, l("1.0"))), S::Let(Pat::Var("rr".into()), E::If(Box::new(bin(Bop::Gt, v("active"), l("0.0"))), Box::new(v("r")), Box::new(l("0.0"))))], Box::new(v("rr"))),
+                    ),
+                    fun("dsp", vec![], tup2(), E::Tup(vec![call(1, "countup", vec![l("1.0")]), call(2, "countup", vec![l("0.0")])])),
+                ],
+                n_in: 0,
+                n_out: 2,
+            },
+            4,
+            vec![1.0, 0.0, 2.0, 0.0, 3.0, 0.0, 4.0, 0.0],
+        ),
+        // closure_counter.mmm: maker pattern
+        (
+            "closure_counter",
+            Prog {
+                tops: vec![
+                    fun(
+                        "makecounter",
+                        vec![],
+                        Ty::Fun(vec![], Box::new(Ty::Num)),
+                        E::Block(
+                            vec![
+                                S::Let(Pat::Var("x".into()), l("0.0")),
+                                S::Let(Pat::Var("countup".into()), E::Lam(vec![], Box::new(E::Block(vec![S::Let(Pat::Var("res".into()), v("x")), S::Assign("x".into(), bin(Bop::Add, v("x"), l("1.0")))], Box::new(v("res")))))),
+                            ],
+                            Box::new(v("countup")),
+                        ),
+                    ),
+                    Top::Let("myc".into(), Ty::Fun(vec![], Box::new(Ty::Num)), call(1, "makecounter", vec![])),
+                    fun("dsp", vec![], Ty::Num, call(2, "myc", vec![])),
+                ],
+                n_in: 0,
+                n_out: 1,
+            },
+            5,
+            vec![0.0, 1.0, 2.0, 3.0, 4.0],
+        ),
+        // mem.mmm-like: mem(x) is x one sample earlier
+        ("mem", Prog { tops: vec![fun("dsp", vec![], Ty::Num, E::Mem(1, Box::new(bin(Bop::Add, E::Now, l("1.0")))))], n_in: 0, n_out: 1 }, 4, vec![0.0, 1.0, 2.0, 3.0]),
+        // closure_open.mmm
+        (
+            "closure_open",
+            Prog { tops: vec![fun("dsp", vec![], Ty::Num, E::Block(vec![S::Let(Pat::Var("x".into()), l("9.0")), S::Let(Pat::Var("f".into()), E::Lam(vec![], Box::new(bin(Bop::Sub, v("x"), l("5.0")))))], Box::new(call(1, "f", vec![]))))], n_in: 0, n_out: 1 },
+            1,
+            vec![4.0],
+        ),
+    ]
+}
+
+fn finish(p: &Prog, inputs: &Inputs, n: u64, classes: Vec<String>, stateful: bool, cx: &Cx, expected: Option<&[f64]>) -> CaseResult {
+    let src = prog::render(p, &Layout::default());
+    let key = format!("{src}\u{1}{}\u{1}{n}", inputs.describe());
+    let hash = hash64(key.as_bytes());
+    if cx.dry {
+        let mut r = CaseResult::discard("dry");
+        r.render = Some(json!({"text": src, "n": n, "inputs": inputs.describe()}));
+        return r;
+    }
+    let mut o = check(p, &src, inputs, n);
+    if let (Some(exp), None, None) = (expected, &o.fail, &o.discard) {
+        // calibration: the reference must also reproduce the fixture's stated vector
+        match reference(p, inputs, n) {
+            Ok(w) => {
+                let flat: Vec<f64> = w.iter().flatten().map(|b| f64::from_bits(*b)).collect();
+                if flat != exp {
+                    o.fail = Some(("c02:calibration:reference-differs-from-fixture".into(), format!("reference {:?} vs fixture expectation {:?}", flat, exp)));
+                }
+            }
+            Err(u) => o.fail = Some(("c02:calibration:reference-unsupported".into(), u.0)),
+        }
+    } else if expected.is_some() && o.discard.is_some() {
+        o.fail = Some(("c02:calibration:discarded".into(), o.discard.clone().unwrap()));
+        o.discard = None;
+    }
+    if let Some(w) = o.discard {
+        return CaseResult::discard(w);
+    }
+    let mut r = match &o.fail {
+        Some((s, m)) => CaseResult::fail(hash, s.clone(), m.clone()),
+        None => CaseResult::held(hash),
+    };
+    r.classes = classes;
+    if o.varying {
+        r.classes.push("output-varies".into());
+    }
+    r.nontrivial = (stateful && n >= 3 && o.varying) || r.is_fail();
+    if cx.render || r.is_fail() {
+        r.render = Some(json!({"text": src, "inputs": inputs.describe(), "n": n}));
+    }
+    r
+}
+
+impl Prop for C02 {
+    fn id(&self) -> &'static str {
+        "C02"
+    }
+    fn spaces(&self, tier: Tier) -> Vec<Space> {
+        let cal = calibration().len() as u64;
+        match tier {
+            Tier::Quick => vec![
+                Space { name: "calibration", size: cal, exhaustive: true, chunk: 1, case_timeout_s: 30.0, what: "fixtures of the repository transcribed into the harness AST, with their expected vectors" },
+                Space { name: "gen", size: 60_000, exhaustive: false, chunk: 1000, case_timeout_s: 30.0, what: "generated programs of the core fragment x input streams x run lengths" },
+            ],
+            Tier::Thorough => vec![
+                Space { name: "calibration", size: cal, exhaustive: true, chunk: 1, case_timeout_s: 30.0, what: "fixtures of the repository transcribed into the harness AST, with their expected vectors" },
+                Space { name: "gen", size: 800_000, exhaustive: false, chunk: 2000, case_timeout_s: 30.0, what: "generated programs of the core fragment x input streams x run lengths" },
+            ],
+        }
+    }
+    fn run(&self, space: &str, index: u64, g: &mut Gen, cx: &Cx) -> CaseResult {
+        if space == "calibration" {
+            let c = calibration();
+            let (name, p, n, exp) = &c[index as usize];
+            let mut r = finish(p, &Inputs { kind: 0, scale: 1.0 }, *n, vec![format!("calibration:{name}")], true, cx, Some(exp));
+            r.classes.push("mode:calibration".into());
+            r.nontrivial = true;
+            return r;
+        }
+        let (cfg, off) = cfg_a(cx);
+        let mut pg = PG::new(g, cfg);
+        let p = pg.program();
+        let feat = pg.feat.clone();
+        let inputs = gen_inputs(g);
+        let n = *g.pick(&[8u64, 4, 16, 3, 32]);
+        let mut r = finish(&p, &inputs, n, feat.classes(), feat.stateful(), cx, None);
+        r.classes.push("mode:gen".into());
+        for id in off {
+            r.count(&format!("generator_switch_off:{id}"), 1);
+        }
+        r
+    }
+    /// Pinned replays: a source text with the output words the reference semantics assigns to it
+    /// (written down when the finding was recorded).  Search cases replay from their tape.
+    fn run_direct(&self, input: &Value, _cx: &Cx) -> Option<CaseResult> {
+        let t = input.get("text")?.as_str()?;
+        let exp: Vec<f64> = input.get("expected")?.as_array()?.iter().filter_map(|v| v.as_f64()).collect();
+        let inputs = Inputs { kind: input.get("input_kind").and_then(|v| v.as_u64()).unwrap_or(1) as u8, scale: input.get("input_scale").and_then(|v| v.as_f64()).unwrap_or(1.0) };
+        let n = input.get("n").and_then(|v| v.as_u64()).unwrap_or(1);
+        let hash = hash64(t.as_bytes());
+        let vm = exec::run_vm(t, &inputs, &RunOpts { n, sched: false, want_state: false, want_counts: false, want_trace: false });
+        let mut r = match vm {
+            Exec::Ran(a) => {
+                let got: Vec<u64> = a.samples.iter().flatten().copied().collect();
+                let want: Vec<u64> = exp.iter().map(|x| x.to_bits()).collect();
+                if got.len() == want.len() && got.iter().zip(want.iter()).all(|(x, y)| canon(*x) == canon(*y)) {
+                    CaseResult::held(hash)
+                } else {
+                    CaseResult::fail(hash, "c02:output-differs", format!("VM {:?}, reference semantics {:?}", got.iter().map(|b| f64::from_bits(*b)).collect::<Vec<_>>(), exp))
+                }
+            }
+            other => CaseResult::fail(hash, "c02:pinned-program-did-not-run", format!("{other:?}").chars().take(300).collect::<String>()),
+        };
+        r.render = Some(json!({"text": t, "expected": exp}));
+        r.nontrivial = true;
+        Some(r)
+    }
+    fn rule(&self) -> String {
+        "Cases are (program of the core fragment CoreGen-A, input stream, run length). CoreGen-A: arithmetic/comparison/logic, builtins, let with tuple/record patterns, if with comparison conditions, blocks with assignments, named functions, lambdas, local closures (read-only capture), counter-maker closures bound at global scope, higher-order functions receiving lambdas or stateless named functions, pipes, self (scalar and tuple), mem, delay with literal time in [1, N-1], now, samplerate, 0-1 dsp inputs. Oracle: an independent reference interpreter written from the property statement (environments of shared cells, strict left-to-right evaluation, a state tree keyed by textual call site, self = previous return value, mem = one-sample delay, delay = history lookup) must agree bitwise (NaN=NaN) with the VM on every output word of every sample. A calibration space replays 8 fixtures of the repository transcribed into the harness AST and checks the reference against the fixtures' expected vectors as well. Non-trivial = stateful program, >= 3 samples, output varies over time.".into()
+    }
+    fn assumptions(&self) -> Vec<String> {
+        vec![
+            "the reference interpreter is the trusted base; it is calibrated against 8 repository fixtures and their expected vectors".into(),
+            "constructs whose meaning the statement does not fix are not generated: stateful code inside if arms and several delays per function (also VM findings), NaN conditions, delay times outside [1, N-1], closures created per sample that own state, variables shared between a frame and a closure after the closure was passed on".into(),
+            "VM crashes are left to C03 (the case is discarded and counted)".into(),
+        ]
+    }
+    fn required_classes(&self, _tier: Tier) -> Vec<&'static str> {
+        vec!["mode:calibration", "output-varies", "f:self", "f:tuple-self", "f:mem", "f:delay", "f:stateful-call", "f:nested-stateful", "f:same-fn-many-sites", "f:maker-closure", "f:local-closure", "f:hof", "f:assign", "f:record"]
+    }
 }
